@@ -505,6 +505,11 @@ impl<'a> TxV<'a> {
                 return self.resolve_among(name, cands, args, fr).map(|f| (f, true));
             }
         }
+        // a local variable of that name hides the function (C scoping): the call does not denote the function any more
+        if fr.types.contains_key(name) {
+            vnote(format!("the call of `{}` names a local variable", name));
+            return None;
+        }
         self.resolve_among(name, self.funcs.get(name)?, args, fr).map(|f| (f, false))
     }
 
